@@ -920,12 +920,20 @@ int EGLPNUM_TYPENAME_ILLfct_perturb_bounds (
 {
 	int rval = 0;
 	int chgb = 0;
+	EGLPNUM_TYPE tol;
 
-	rval = expand_var_bounds (lp, lp->tol->ip_tol, &chgb);
+	/* with exact arithmetic the tolerance is zero, and a perturbation of size
+	 * zero breaks no tie: a stalled simplex would cycle for good */
+	EGLPNUM_TYPENAME_EGlpNumInitVar (tol);
+	EGLPNUM_TYPENAME_EGlpNumCopy (tol, lp->tol->ip_tol);
+	if (!EGLPNUM_TYPENAME_EGlpNumIsNeqqZero (tol))
+		EGLPNUM_TYPENAME_EGlpNumSet (tol, PARAM_EXACT_PERTURB);
+	rval = expand_var_bounds (lp, tol, &chgb);
 #if FCT_DEBUG > 0
 	if (rval == 0)
 		QSlog("perturbing %d bounds", chgb);
 #endif
+	EGLPNUM_TYPENAME_EGlpNumClearVar (tol);
 	EG_RETURN (rval);
 }
 
@@ -1136,12 +1144,19 @@ int EGLPNUM_TYPENAME_ILLfct_perturb_coefs (
 {
 	int rval = 0;
 	int chgc = 0;
+	EGLPNUM_TYPE tol;
 
-	rval = expand_var_coefs (lp, lp->tol->id_tol, &chgc);
+	/* see EGLPNUM_TYPENAME_ILLfct_perturb_bounds */
+	EGLPNUM_TYPENAME_EGlpNumInitVar (tol);
+	EGLPNUM_TYPENAME_EGlpNumCopy (tol, lp->tol->id_tol);
+	if (!EGLPNUM_TYPENAME_EGlpNumIsNeqqZero (tol))
+		EGLPNUM_TYPENAME_EGlpNumSet (tol, PARAM_EXACT_PERTURB);
+	rval = expand_var_coefs (lp, tol, &chgc);
 #if FCT_DEBUG > 0
 	if (rval == 0)
 		QSlog("perturbing %d coefs", chgc);
 #endif
+	EGLPNUM_TYPENAME_EGlpNumClearVar (tol);
 	EG_RETURN (rval);
 }
 
